@@ -267,17 +267,17 @@ def parse_file(text):
                 d['bench'] = _name(cols[5])
                 d['exe'] = _name(cols[6])
                 d['run_col'] = int(cols[-1])
-            elif (len(cols) == 13 and cols[0].isdigit() and cols[1].isdigit() and cols[11].isdigit()
-                  and cols[12].startswith('[') and _is_json(cols[12])):
+            elif (len(cols) >= 13 and cols[0].isdigit() and cols[1].isdigit() and cols[-2].isdigit()
+                  and cols[-1].startswith('[') and _is_json(cols[-1])):
                 # profile data line: invocation, numIterations, run columns, json
                 d['kind'] = 'prof'
                 d['crit'] = 'profile'
-                d['json'] = cols[12]
+                d['json'] = cols[-1]
                 d['inv'] = int(cols[0])
                 d['bench'] = _name(cols[2])
                 d['exe'] = _name(cols[3])
-                d['run_col'] = int(cols[11])
-                m = re.search(r'sym(\d+)', cols[12])
+                d['run_col'] = int(cols[-2])
+                m = re.search(r'sym(\d+)', cols[-1])
                 d['serial'] = int(m.group(1)) if m else None
             else:
                 d['kind'] = 'other'
